@@ -368,7 +368,16 @@ def run(ck, m):
             and len(loop.body[0].body) == 1 and isinstance(loop.body[0].body[0], ast.Return) and norm(loop.body[0].body[0].value) == lv_ and not loop.orelse \
             and isinstance(ac.body[-1], ast.Return) and norm(ac.body[-1].value) == fb_ \
             and all(norm(s_) == f"{fb_}.is_supported()" for s_ in ac.body[ac.body.index(loop) + 1:-1])
-    ck.ob("R5", ac, ok or okB, "auto_image_class must return the first class of _styles whose is_supported() is true, else the last one", stmt="auto_image_class: first supported else last")
+    # third accepted idiom: `return next((c for c in _styles if c.is_supported()), _styles[-1])`
+    okC = False
+    r_ = ac.body[-1] if ac.body and isinstance(ac.body[-1], ast.Return) else None
+    v_ = trace(ac, r_.value, use=r_) if r_ is not None and r_.value is not None else None
+    if isinstance(v_, ast.Call) and isinstance(v_.func, ast.Name) and v_.func.id == "next" and len(v_.args) == 2 and isinstance(v_.args[0], ast.GeneratorExp):
+        ge_ = v_.args[0]
+        g0 = ge_.generators[0] if len(ge_.generators) == 1 else None
+        okC = g0 is not None and norm(g0.iter) == "_styles" and isinstance(g0.target, ast.Name) and norm(ge_.elt) == g0.target.id \
+            and [norm(i_) for i_ in g0.ifs] == [f"{g0.target.id}.is_supported()"] and norm(v_.args[1]) == "_styles[-1]" and loop is None
+    ck.ob("R5", ac, ok or okB or okC, "auto_image_class must return the first class of _styles whose is_supported() is true, else the last one", stmt="auto_image_class: first supported else last")
     ks = m.get(KT, "KittyImage.is_supported")
     isup = m.get(IT, "ITerm2Image.is_supported")
 
